@@ -399,8 +399,8 @@ func (g *progGen) node(depth int) string {
 			// with repeated elements): each compares with what IT rendered last time
 			// (outer elements repeat and differ in length, the inner loop ends on the same text every time)
 			return "{% for oa in " + pick(g.t, "icl1", []string{"items", "nums", "words", `["a", "a", "ccc", "ccc", "b"]`, `["bb", "bb", "c", "dddd", "dddd"]`, `["", "", "xyz"]`}) +
-				" %}{% ifchanged %}<{{ oa }}{% for ob in " + pick(g.t, "icl2", []string{"items", "nums", "words", `["x"]`, `["x", "y"]`, `"q"`}) +
-				" %}{% ifchanged %}{{ ob }}{% endifchanged %}{% endfor %}>{% endifchanged %}{% endfor %}"
+				" %}{% ifchanged %}({{ oa }}{% for ob in " + pick(g.t, "icl2", []string{"items", "nums", "words", `["x"]`, `["x", "y"]`, `"q"`}) +
+				" %}{% ifchanged %}{{ ob }}{% endifchanged %}{% endfor %}){% endifchanged %}{% endfor %}"
 		}
 		s := "{% ifchanged"
 		if g.chance(2, "watch") {
